@@ -103,3 +103,40 @@ Check registrations_survive_load :
   forall (sp : ssite -> bool) (ssw : save_switches) (w : world) (j : json),
     host_regs (snd (load_state sp ssw w j)) = host_regs w.
 Print Assumptions registrations_survive_load.
+
+From Ink.Gen Require Import SaveGen.
+From Ink.Engine Require Import Save.
+From Ink.Shell Require Import HostFrame Events.
+
+(* ---------------- what the host has been told stays told ----------------
+   The model's event log records every call the engine makes into the host (observer, error handler,
+   external function).  For the whole engine model it is append-only: no interpreter step, no look-ahead
+   rewind, no story operation and no load retracts, reorders or rewrites a call already made. *)
+Theorem event_log_append_only :
+  forall (I : iface) (sw : switches) (ops : list story_op) (w : world),
+    exists l, w_events (run_story_ops I sw ops w) = w_events w ++ l.
+Proof. exact Events.event_log_append_only. Qed.
+Check event_log_append_only :
+  forall (I : iface) (sw : switches) (ops : list story_op) (w : world),
+    exists l, w_events (run_story_ops I sw ops w) = w_events w ++ l.
+Print Assumptions event_log_append_only.
+
+Theorem host_call_is_never_retracted :
+  forall (I : iface) (sw : switches) (ops1 ops2 : list story_op) (w : world) (n : nat) (e : event),
+    nth_error (w_events (run_story_ops I sw ops1 w)) n = Some e ->
+    nth_error (w_events (run_story_ops I sw ops2 (run_story_ops I sw ops1 w))) n = Some e.
+Proof. exact Events.host_call_is_never_retracted. Qed.
+Check host_call_is_never_retracted :
+  forall (I : iface) (sw : switches) (ops1 ops2 : list story_op) (w : world) (n : nat) (e : event),
+    nth_error (w_events (run_story_ops I sw ops1 w)) n = Some e ->
+    nth_error (w_events (run_story_ops I sw ops2 (run_story_ops I sw ops1 w))) n = Some e.
+Print Assumptions host_call_is_never_retracted.
+
+Theorem load_keeps_event_log :
+  forall (sp : ssite -> bool) (ssw : save_switches) (w : world) (j : json),
+    w_events (snd (load_state sp ssw w j)) = w_events w.
+Proof. exact Events.load_keeps_event_log. Qed.
+Check load_keeps_event_log :
+  forall (sp : ssite -> bool) (ssw : save_switches) (w : world) (j : json),
+    w_events (snd (load_state sp ssw w j)) = w_events w.
+Print Assumptions load_keeps_event_log.
